@@ -159,7 +159,7 @@ def _parse_color_arg(colors, ids, id_kind="edges"):
 def _draw_arg_to_arr(arg, ids=None):
     """Convert drawing arguments to a matplotlib-compliant format.
 
-    IDStat, dict, and list are converted to ndarray.
+    IDStat, dict, list, tuple and range are converted to ndarray.
     Scalar values are untouched.
 
     Parameters
@@ -184,7 +184,7 @@ def _draw_arg_to_arr(arg, ids=None):
         else:
             values = list(arg.values())
         arg = np.array(values)
-    elif isinstance(arg, list):
+    elif isinstance(arg, (list, tuple, range)):  # "iterable": any plain sequence
         arg = np.array(arg)
 
     return arg
